@@ -7,6 +7,9 @@ VERIF = os.path.dirname(os.path.dirname(os.path.abspath(__file__)))
 
 # id -> (technique, level text, level note, design ref)   -- only checks that exist under mc/checks are claimed
 CHECKS = {
+    "C13": ("exhaustive exploration of operation histories (depth <= 2 over a menu of public operations) under a frame-condition monitor",
+            "63 public operations (constructors, parse/parse_observable/dict_to_stix2, copy/deepcopy/serialize/canonicalize, new_version/revoke/remove_custom_stix on objects and dicts, the six marking functions on objects, dicts and as methods, bundling, ObjectFactory/Environment, MemoryStore/Source/Sink, FileSystemStore, navigation, CompositeDataSource, filters, pattern equivalence, utils) are run alone on 5 argument shapes (flat/nested, aliased, non-canonical hash spellings, library objects shared between parents, tuples) and in ordered pairs on the same inputs (quick: all pairs within an API area + a deterministic cross-area cover on 2 shapes; thorough: all 3969 pairs on all shapes); deep snapshots of every argument and of every object created earlier are compared around each call. For the maximal instance of every type of both versions and 6 objects with custom / extension properties: setattr, delattr, setitem, delitem of every property (and of nested library objects) are refused and change nothing; deepcopy is equal, same class and container-disjoint; two independently created Environments do not influence each other.",
+            "trusted: snapshot function snap() in the check; aliasing into new objects is not flagged, only observed changes", "DESIGN.md §3 C13"),
     "C14": ("exhaustive differential enumeration of entry points x types x versions x identifier classes against a direct parse",
             "Every public entry point with a version parameter (dict_to_stix2, parse, parse_observable, MemoryStore/MemorySource/MemorySink construction, add (object and list form), load_from_file, FileSystemSource get/all_versions/query and FileSystemStore.get over raw files, FileSystemSink.add in dict/text/list form) x every type of both content versions x version argument {None, 2.0, 2.1} x 5 identifier classes (UUIDv4, UUIDv1, nil, non-RFC-4122 variant, malformed) x allow_custom {False, default} is compared with stix2.parse(content, allow_custom, version=version): same class or same refusal; the strict outcome is recomputed after the same content went through the relaxed mode (history independence); with no version named the library's own serialization is recognised as its version by every entry point.",
             "trusted: stix2.parse(..., version=) as reference (the parser itself is judged by C02/C03); filesystem read entries only with ids the directory layout can address", "DESIGN.md §3 C14"),
